@@ -221,8 +221,8 @@ def gen_packets(tier, seed, big):
         for topic in strs:
             yield "PUBLISH", {"qos": 2, "dup": True, "retain": False, "topic": topic, "msgId": 65535, "payload": bytearray(b"p")}
     # SUBSCRIBE / UNSUBSCRIBE / SUBACK: 1..n entries
-    for n in (1, 2, 3, 16, 64):
-        for ident in ids[:5]:
+    for n in (1, 2, 3, 16, 64, 125, 126, 127, 300):
+        for ident in (ids[:5] if n <= 64 else ids[1:2]):
             topics = [(small[(k * 7 + n) % len(small)] or "t", k % 3) for k in range(n)]
             yield "SUBSCRIBE", {"msgId": ident, "topics": topics}
             yield "UNSUBSCRIBE", {"msgId": ident, "topics": [t for (t, _) in topics]}
@@ -694,10 +694,10 @@ def c02_live(A):
                 o.bad("live/fields-differ/%s" % p["t"], "%s on the wire is not the encoding of the call's arguments" % p["t"], e)
             o.dec("live_api_compared")
         elif p["t"] == "CONNECT":
-            c = A.conns[e["conn"]]
-            if c.connect_calls:
-                m = connect_fields_match(p, c.connect_calls[0]["info"])
-                if m and not c.connect_calls[0]["info"].get("invalid"):
+            call = A.calls.get(e.get("api"))
+            if call is not None and call["op"] == "connect":
+                m = connect_fields_match(p, call["info"])
+                if m and not call["info"].get("invalid"):
                     o.bad("live/fields-differ/CONNECT", m, e)
                 o.dec("live_api_compared")
         if e["bad"] is not None and e["bad"] != "wildcard or NUL in topic name":
